@@ -813,6 +813,17 @@ func main() {
 	} else {
 		miss("countWithoutActiveDownload compare")
 	}
+	// cancelAndWaitForComplete: count >= 60 (number of 10 s waits before giving up)
+	if op, v, ok := findIntCompare(root, root.funcs["BlockDownloader.cancelAndWaitForComplete"],
+		"count", renv); ok {
+		fx.Ints["cancelWaitLimit"] = v
+		fx.Strs["cancelWaitOp"] = op
+	} else {
+		miss("cancelAndWaitForComplete count compare")
+	}
+	// synchronizeBlocks (C05): the two comparisons against config.StartBlockHeight, the order of
+	// the statements of the walk-back loop, and the poll period `time.After(time.Second * N)`.
+	syncFacts(root, fx)
 	// peers Get: maxScore == -1
 	if op, v, ok := findIntCompare(root, root.funcs["StoragePeerRepository.Get"], "maxScore", renv); ok {
 		fx.Ints["peersUnboundedSentinel"] = v
@@ -852,6 +863,35 @@ func main() {
 		map[string]bool{"Save": true, "Write": true})
 	fx.CallOrders["prune"] = callOrder(hdrs.funcs["Repository.prune"],
 		map[string]bool{"Save": true, "Prune": true})
+	// C04: the order of the merkle / processor / store calls in BlockDownloader.handleBlock, and the
+	// `prune` argument of NewMerkleTree there (1 = true).
+	if hb := root.funcs["BlockDownloader.handleBlock"]; hb != nil {
+		fx.CallOrders["handleBlock"] = callOrder(hb, map[string]bool{"ProcessTx": true, "AddMerkleProof": true,
+			"AddHash": true, "FinalizeMerkleProofs": true, "Verify": true, "ProcessCoinbaseTx": true,
+			"ConfirmTx": true, "AppendBlockTxIDs": true})
+		found := false
+		ast.Inspect(hb.Body, func(n ast.Node) bool {
+			call, ok := n.(*ast.CallExpr)
+			if !ok {
+				return true
+			}
+			if sel, ok := call.Fun.(*ast.SelectorExpr); ok && sel.Sel.Name == "NewMerkleTree" && len(call.Args) == 1 {
+				if id, ok := call.Args[0].(*ast.Ident); ok && (id.Name == "true" || id.Name == "false") {
+					found = true
+					fx.Ints["merkleTreePrune"] = 0
+					if id.Name == "true" {
+						fx.Ints["merkleTreePrune"] = 1
+					}
+				}
+			}
+			return true
+		})
+		if !found {
+			miss("NewMerkleTree(prune) in handleBlock")
+		}
+	} else {
+		miss("BlockDownloader.handleBlock")
+	}
 
 	// lock shapes of the exported methods of the two single-mutex components
 	for key, fd := range hdrs.funcs {
@@ -981,7 +1021,7 @@ func writeLean(path string, fx *facts) {
 	}
 	b.WriteString("\n")
 	wrList("processHeaderCheckOrder", fx.CheckOrder)
-	for _, k := range []string{"clean", "Save", "saveBranches", "prune"} {
+	for _, k := range []string{"clean", "Save", "saveBranches", "prune", "handleBlock"} {
 		wrList("callOrder_"+k, fx.CallOrders[k])
 	}
 	b.WriteString("\n/-- exported methods of the single-mutex components and their lock shape. -/\n")
@@ -1000,4 +1040,146 @@ func writeLean(path string, fx *facts) {
 	}
 	b.WriteString("]\n\nend BRV.Facts\n")
 	writeIfChanged(path, b.Bytes())
+}
+
+// syncFacts extracts the shape facts of NodeManager.synchronizeBlocks used by the C05 model.
+func syncFacts(root *pkgInfo, fx *facts) {
+	fd := root.funcs["NodeManager.synchronizeBlocks"]
+	if fd == nil {
+		miss("NodeManager.synchronizeBlocks")
+		return
+	}
+	// comparisons against m.config.StartBlockHeight
+	ast.Inspect(fd.Body, func(n ast.Node) bool {
+		be, ok := n.(*ast.BinaryExpr)
+		if !ok {
+			return true
+		}
+		if src(root, be.Y) != "m.config.StartBlockHeight" {
+			return true
+		}
+		if id, ok := be.X.(*ast.Ident); ok {
+			switch id.Name {
+			case "lastHeight":
+				fx.Strs["syncStartGuardOp"] = be.Op.String()
+			case "height":
+				fx.Strs["syncWalkStopOp"] = be.Op.String()
+			}
+		}
+		return true
+	})
+	for _, k := range []string{"syncStartGuardOp", "syncWalkStopOp"} {
+		if _, ok := fx.Strs[k]; !ok {
+			miss(k)
+		}
+	}
+	// the walk-back loop: first `for {` whose body calls PreviousHash
+	var loop *ast.ForStmt
+	ast.Inspect(fd.Body, func(n ast.Node) bool {
+		fs, ok := n.(*ast.ForStmt)
+		if ok && loop == nil && fs.Cond == nil && strings.Contains(src(root, fs.Body), ".PreviousHash(") {
+			loop = fs
+			return false
+		}
+		return true
+	})
+	if loop == nil {
+		miss("synchronizeBlocks walk-back loop")
+	} else {
+		var order []string
+		for _, st := range loop.Body.List {
+			txt := src(root, st)
+			switch s := st.(type) {
+			case *ast.AssignStmt:
+				switch {
+				case strings.Contains(txt, ".PreviousHash("):
+					order = append(order, "PreviousHash")
+				case strings.HasPrefix(txt, "hashes = append([]bitcoin.Hash32{"):
+					order = append(order, "prepend")
+				case strings.HasPrefix(txt, "hashes = append("):
+					order = append(order, "append")
+				case strings.HasPrefix(txt, "hash = "):
+					order = append(order, "hash=prev")
+				}
+			case *ast.IncDecStmt:
+				if s.Tok == token.DEC {
+					order = append(order, "height--")
+				} else {
+					order = append(order, "height++")
+				}
+			case *ast.IfStmt:
+				switch {
+				case strings.Contains(txt, "FetchBlockTxIDs"):
+					order = append(order, "processed-test")
+				case strings.Contains(src(root, s.Cond), "StartBlockHeight"):
+					order = append(order, "start-test")
+				case strings.Contains(src(root, s.Cond), "previousHash == nil"):
+					// with the by-height fallback for headers pruned from memory, or a plain return
+					if strings.Contains(txt, "m.headers.Hash(ctx, height-1)") && strings.Contains(txt, "currentHash.Equal(&hash)") {
+						order = append(order, "nil-fallback")
+					} else {
+						order = append(order, "nil-test")
+					}
+				}
+			}
+		}
+		fx.Strs["syncWalkOrder"] = strings.Join(order, ",")
+	}
+	// close(abort): the condition of the innermost `if` around it; and the nil check after AddRequest
+	var guard string
+	var walkIf func(n ast.Node, cond string)
+	walkIf = func(n ast.Node, cond string) {
+		ast.Inspect(n, func(c ast.Node) bool {
+			if c == n {
+				return true
+			}
+			if is, ok := c.(*ast.IfStmt); ok {
+				walkIf(is.Body, src(root, is.Cond))
+				if is.Else != nil {
+					walkIf(is.Else, "else:"+src(root, is.Cond))
+				}
+				return false
+			}
+			if call, ok := c.(*ast.CallExpr); ok && src(root, call) == "close(abort)" {
+				guard = cond
+			}
+			return true
+		})
+	}
+	walkIf(fd.Body, "")
+	if guard == "" {
+		miss("synchronizeBlocks close(abort)")
+	} else {
+		fx.Strs["syncAbortGuard"] = guard
+	}
+	fx.Ints["syncNilCompleteCheck"] = 0
+	ast.Inspect(fd.Body, func(n ast.Node) bool {
+		if is, ok := n.(*ast.IfStmt); ok && src(root, is.Cond) == "complete == nil" &&
+			strings.Contains(src(root, is.Body), "return") {
+			fx.Ints["syncNilCompleteCheck"] = 1
+		}
+		return true
+	})
+	// poll period
+	found := false
+	ast.Inspect(fd.Body, func(n ast.Node) bool {
+		call, ok := n.(*ast.CallExpr)
+		if !ok || len(call.Args) != 1 || src(root, call.Fun) != "time.After" {
+			return true
+		}
+		if be, ok := call.Args[0].(*ast.BinaryExpr); ok && be.Op == token.MUL {
+			for _, pair := range [][2]ast.Expr{{be.X, be.Y}, {be.Y, be.X}} {
+				if src(root, pair[0]) == "time.Second" {
+					if v, ok := evalInt(pair[1], map[string]int64{}); ok {
+						fx.Ints["syncPollSeconds"] = v
+						found = true
+					}
+				}
+			}
+		}
+		return true
+	})
+	if !found {
+		miss("synchronizeBlocks poll period")
+	}
 }
